@@ -31,7 +31,9 @@ def native(points):
             math.hypot(c["lat"] + 21.4233, ((c["lon"] - 39.8233 + 180 + 180) % 360 - 180) * math.cos(21.4 * math.pi / 180)) < 0.1
         if near:
             continue
-        if abs(d) > 1e-6 or not (-180 < r["degrees"] <= 180):
+        # the open end of (-180,180] is judged with the property's own 1e-6 tolerance: on the exact antimeridian the real-valued result
+        # -179.99999999999999 rounds to the double -180.0 (exact-real range is the solver's obligation)
+        if abs(d) > 1e-6 or not (-180 - 1e-9 < r["degrees"] <= 180):
             out.append(("qibla-bearing", "Qibla at (%.4f, %.4f): %.7f, independent vector form %.7f" % (c["lat"], c["lon"], r["degrees"], exp), c, r))
         elif (r["rotation"] == "CW") != (r["degrees"] < 0):
             out.append(("qibla-rotation", "rotation label %s for %.4f degrees" % (r["rotation"], r["degrees"]), c, r))
@@ -48,11 +50,11 @@ def run(rep):
                         "the {:.1} text rendering is outside the claim"]
     res = base.run_obligations(rep, [(kernels.qibla, None)])
     cands = [c for x in res for c in x["cands"]]
-    if cands or any(x["inconclusive"] for x in res):
+    if cands or any(x["inconclusive"] for x in res) or rep.tier == "thorough":
         import random
         rnd = random.Random(int(os.environ.get("VERIF_SEED", "0") or 0))
         pts = [(c["inputs"].get("lat") or 0.0, c["inputs"].get("lon") or 0.0, c["inputs"].get("elev") or 0.0) for c in cands[:20]]
-        pts += [(rnd.uniform(-89.9, 89.9), rnd.uniform(-180, 180), rnd.choice([0.0, 500.0, -100.0])) for _ in range(400)]
+        pts += [(rnd.uniform(-89.9, 89.9), rnd.uniform(-180, 180), rnd.choice([0.0, 500.0, -100.0])) for _ in range(20000 if rep.tier == "thorough" else 400)]
         pts += [(la, 39.823333, 0.0) for la in (-60, -30, 0, 21.0, 22.0, 60, 80)] + [(la, -140.176667, 0.0) for la in (-80, -60, -30, -10, 0, 40, 80)] + \
                [(10, 180.0, 0), (10, -180.0, 0), (-45, 180.0, 0), (89.9, 0.0, 0), (-89.9, 100.0, 0)]
         found = {}
